@@ -1,2 +1,4 @@
 pub mod grammar;
+pub mod jsx;
+pub mod sem;
 pub mod opts;
